@@ -9,12 +9,18 @@
 //       and hands it to its exporter on Shutdown (what a batch processor does, without its worker thread);
 //       T: one logical thread each (op as in coq/C04/Glue.v; explicit time stamps only); the controller starts the span, runs the
 //       threads under the schedule, then calls End(7777) itself and drops the span.
-//   observation:  OK || H {B|R <tid> <idx> <res>}* X Q {# <span received by processor i>}*
-//       B / R: operation <idx> of thread <tid> is about to be called / has returned (res: the answer of IsRecording, else 0), in the
-//       order in which it happened; thread number = number of threads for the controller's End.
-//       (DEADLOCK / STEPLIMIT / CRASH instead of OK when the run did not finish)
+//   observation:  Q {# <span received by processor i>}* || H {<K> <tid> <a> <b>}*        in the order in which it happened:
+//       B / R <tid> <idx> <res>: operation <idx> of thread <tid> is about to be called / has returned (res: the answer of
+//       IsRecording, else 0);  L / U <tid>: the thread took / released Span::mu_;  D <tid> <p>: processor p is handed its child
+//       (a simple processor's exporter is called, the queueing processor's OnEnd is entered); thread number = number of threads
+//       for the controller's End.   (DEADLOCK / STEPLIMIT / CRASH in front when the run did not finish)
 #include "c04_common.h"
 #include "sched/sched_driver.h"
+// the shimmed copy of the SDK-internal header (scratch directory first on the include path): the driver needs the ADDRESS of
+// Span::mu_ to give the lock a name in the scheduler's log - nothing else of the class is touched
+#define private public
+#include "src/trace/span.h"
+#undef private
 
 using verif::Sched;
 
@@ -25,10 +31,11 @@ struct RStore { std::vector<std::unique_ptr<tsdk::Recordable>> got; };
 class RecExporter final : public tsdk::SpanExporter
 {
 public:
-  explicit RecExporter(std::shared_ptr<RStore> s) : store_(std::move(s)) {}
+  RecExporter(std::shared_ptr<RStore> s, int deliver_as) : store_(std::move(s)), deliver_as_(deliver_as) {}
   std::unique_ptr<tsdk::Recordable> MakeRecordable() noexcept override { return std::unique_ptr<tsdk::Recordable>(new tsdk::SpanData); }
   sdkc::ExportResult Export(const nostd::span<std::unique_ptr<tsdk::Recordable>> &spans) noexcept override
   {
+    if (deliver_as_ >= 0) Sched::I().log("D " + std::to_string(deliver_as_));   // a simple processor: Export runs inside OnEnd
     verif::this_thread::yield();      // a slow exporter: anything may happen while it works
     verif::this_thread::yield();
     for (auto &r : spans) store_->got.push_back(std::move(r));
@@ -40,16 +47,18 @@ public:
 
 private:
   std::shared_ptr<RStore> store_;
+  int deliver_as_;
 };
 
 class QueueProcessor final : public tsdk::SpanProcessor
 {
 public:
-  explicit QueueProcessor(std::unique_ptr<tsdk::SpanExporter> &&e) : exporter_(std::move(e)) {}
+  QueueProcessor(std::unique_ptr<tsdk::SpanExporter> &&e, int index) : exporter_(std::move(e)), index_(index) {}
   std::unique_ptr<tsdk::Recordable> MakeRecordable() noexcept override { return exporter_->MakeRecordable(); }
   void OnStart(tsdk::Recordable &, const trace::SpanContext &) noexcept override {}
   void OnEnd(std::unique_ptr<tsdk::Recordable> &&span) noexcept override
   {
+    Sched::I().log("D " + std::to_string(index_));
     verif::this_thread::yield();
     queue_.push_back(std::move(span));
     verif::this_thread::yield();
@@ -69,6 +78,7 @@ private:
     return true;
   }
   std::unique_ptr<tsdk::SpanExporter> exporter_;
+  int index_;
   std::vector<std::unique_ptr<tsdk::Recordable>> queue_;
 };
 
@@ -120,9 +130,10 @@ static bool run_srace(const Toks &t, Out &o)
   for (size_t i = 1; i < sp.size(); i++)
   {
     stores.push_back(std::make_shared<RStore>());
-    std::unique_ptr<tsdk::SpanExporter> ex(new RecExporter(stores.back()));
-    if (sp[i].is_tag("S")) procs.emplace_back(new tsdk::SimpleSpanProcessor(std::move(ex)));
-    else procs.emplace_back(new QueueProcessor(std::move(ex)));
+    bool simple = sp[i].is_tag("S");
+    std::unique_ptr<tsdk::SpanExporter> ex(new RecExporter(stores.back(), simple ? int(i - 1) : -1));
+    if (simple) procs.emplace_back(new tsdk::SimpleSpanProcessor(std::move(ex)));
+    else procs.emplace_back(new QueueProcessor(std::move(ex), int(i - 1)));
   }
   res::ResourceAttributes ra;
   RawResource rr(ra);
@@ -146,10 +157,11 @@ static bool run_srace(const Toks &t, Out &o)
   }
   trace::SpanContext span_ctx = span->GetContext();
 
-  // the history: written by whoever holds the baton
-  std::vector<std::string> hist;
-  auto ev = [&](const char *k, size_t tid, size_t idx, long long r) {
-    hist.push_back(std::string(k) + " " + std::to_string(tid) + " " + std::to_string(idx) + " " + std::to_string(r));
+  // the history is the scheduler's log (written by whoever holds the baton): the driver's B / R / D entries and the lock / unlock
+  // entries of Span::mu_
+  S.name(&static_cast<tsdk::Span *>(span.get())->mu_, "mu");
+  auto ev = [&](const char *k, size_t, size_t idx, long long r) {
+    S.log(std::string(k) + " " + std::to_string(idx) + " " + std::to_string(r));
   };
   std::vector<char> ok(threads.size(), 1);
   trace::Span *sp_raw = span.get();
@@ -175,14 +187,14 @@ static bool run_srace(const Toks &t, Out &o)
     span->End(eo);
     ev("R", threads.size(), 0, 0);
   }
-  span   = nostd::shared_ptr<trace::Span>();
+  ev("B", threads.size(), 1, 0);
+  span = nostd::shared_ptr<trace::Span>();      // ~Span: End()
+  ev("R", threads.size(), 1, 0);
   tracer = nostd::shared_ptr<trace::Tracer>();
   provider->ForceFlush();
   provider->Shutdown();
 
-  o.tag("OK").tag("||").tag("H");
-  for (auto &h : hist) o.add(h);
-  o.tag("X").tag("Q");
+  o.tag("Q");
   Window none{0, 0, false};
   std::vector<Window> no_events;
   Clocked ck;
@@ -201,6 +213,19 @@ static bool run_srace(const Toks &t, Out &o)
       scribble(*d);
     }
     ck.is_first = false;
+  }
+  // H {<K> <tid> <a> <b>}*   (the controller, tid -1 in the log, is thread number <number of threads>)
+  o.tag("||").tag("H");
+  for (auto &e : S.events())
+  {
+    std::istringstream is(e);
+    long long tid; std::string k, a, b, c;
+    is >> tid >> k >> a >> b >> c;
+    std::string t = std::to_string(tid < 0 ? (long long)threads.size() : tid);
+    if (k == "B" || k == "R") o.add(k + " " + t + " " + a + " " + b);
+    else if (k == "D") o.add("D " + t + " " + a + " 0");
+    else if (k == "lock" && a == "mu") o.add("L " + t + " 0 0");
+    else if (k == "unlock" && a == "mu") o.add("U " + t + " 0 0");
   }
   provider.reset();
   return true;
